@@ -114,6 +114,13 @@ NoResurrectionStep(i) ==
   /\ \A r \in Reps(i) : \A x \in (Get(dead, r) \cap Tracked) : ~LiveAt(i, r, x)
   /\ IsQuiescentMesh(i) => \A r \in Reps(i) : \A x \in Tracked : ~LiveAt(i, r, x)
 
+\* a tombstone is terminal: no incremental exchange or local write turns it into anything else (a refresh replaces
+\* the consumer's whole database with the supplier's and is exempt)
+TombstoneTerminal(i) ==
+  (i > 1 /\ ~IsInit(i) /\ Rec[i].op # "refresh") =>
+     \A r \in Reps(i) : \A x \in DOMAIN Ents(i - 1, r) :
+        Ents(i - 1, r)[x].live = "tombstone" => (x \notin DOMAIN Ents(i, r) \/ Ents(i, r)[x].live = "tombstone")
+
 Refused(i) == Rec[i].op = "repl" /\ Rec[i].res.sup \in {"refresh_required", "unwilling", "domain_mismatch"}
 RefusalInert(i) == (Refused(i) /\ i > 1 /\ ~IsInit(i)) => Ents(i, Rec[i].to) = Ents(i - 1, Rec[i].to)
 
@@ -146,6 +153,7 @@ Judge == l <= Len(Rec) =>
   /\ (Q(l, ConvergedSes(l))     \/ PrintT(<<"L1FAIL", "C08", l, SesSig(l)>>))
   /\ (Q(l, ConvergedDerived(l)) \/ PrintT(<<"L1FAIL", "C08", l, "recycled-entry-stale-memberof">>))
   /\ (NoResurrectionStep(l) \/ PrintT(<<"L1FAIL", "C09", l, "resurrected">>))
+  /\ (TombstoneTerminal(l)  \/ PrintT(<<"L1FAIL", "C09", l, "tombstone-changed">>))
   /\ (RefusalInert(l)       \/ PrintT(<<"L1FAIL", "C09", l, "refusal-changed-consumer">>))
   /\ (RangeDecision(l)      \/ PrintT(<<"L1FAIL", "C09", l, "range-decision">>))
   /\ (RevocationSticky(l)   \/ PrintT(<<"L1FAIL", "C11", l, "revocation-not-propagated">>))
